@@ -60,7 +60,7 @@ def one(d):
 
 def main():
     sel = sys.argv[1:]
-    dirs = sorted(str(d) for d in (VERIF / 'refactored').glob("C*-[rstuv]*") if not sel or any(d.name.startswith(s) for s in sel))
+    dirs = sorted(str(d) for d in (VERIF / 'refactored').glob("C*-[rstuvw]*") if not sel or any(d.name.startswith(s) for s in sel))
     global BASE
     BASE = counts(dict(os.environ, SA_EVIDENCE_DIR=tempfile.mkdtemp(prefix='ref-ev-')))
     with ProcessPoolExecutor(8) as ex:
